@@ -9,6 +9,8 @@ use crate::vm::{self, AnyVm, Buf, Eng, Out, VmKind};
 use serde_json::{json, Value};
 
 pub const GATHER_ID: u32 = 1;
+/// further keys the same helper is registered under: any u32 is a legal key (a negative immediate)
+pub const GATHER_IDS_HIGH: [u32; 3] = [0x7fff_ffff, 0x8000_0001, 0xffff_fff0];
 
 // ------------------------------------------------------------------------------------------
 // generic comparison of one execution against the model
@@ -115,6 +117,9 @@ impl<'a> Runner<'a> {
         let mut vm = AnyVm::new(kind, Some(bytes))?;
         if helpers {
             vm.register_helper(GATHER_ID, gather_helper)?;
+            for id in GATHER_IDS_HIGH {
+                vm.register_helper(id, gather_helper)?;
+            }
         }
         Ok(Runner { vm, kind, pkt: Buf::new(pkt_len, 0), mb: Buf::new(mb_len, 0) })
     }
@@ -140,6 +145,9 @@ pub fn model_for<'p>(prog: &'p [I], kind: VmKind, packet: &[u8], mbuff: &[u8], h
     let mut m = Machine::new(prog, kind, packet, mbuff);
     if helpers {
         m.helpers.insert(GATHER_ID, refmodel::h_gather_bytes as refmodel::ModelHelper);
+        for id in GATHER_IDS_HIGH {
+            m.helpers.insert(id, refmodel::h_gather_bytes as refmodel::ModelHelper);
+        }
     }
     m
 }
@@ -723,6 +731,9 @@ pub fn l1_enumerate(thorough: bool) -> Vec<L1> {
                 for dstf in [0u8, 3] {
                     v.push(mk(L1Kind::Call, I::new(opc, dstf, 0, 0, GATHER_ID as i32), 0, 6, 0));
                     v.push(mk(L1Kind::Call, I::new(opc, dstf, 0, 0, GATHER_ID as i32), 0, 9, 0));
+                }
+                for id in GATHER_IDS_HIGH {
+                    v.push(mk(L1Kind::Call, I::new(opc, 0, 0, 0, id as i32), 0, 6, 0));
                 }
             }
             Kind::Exit => {}
@@ -1708,6 +1719,9 @@ pub fn run_layer6(s: &mut Sink, eng: Eng, g: &mut u64) {
     run_group(s, eng, "reuse", &rp0, move |cs| {
         l6_check(cs, eng);
         l6_nested(cs, eng);
+        if eng == Eng::Interp {
+            l6_after_error(cs);
+        }
         if eng != Eng::Interp {
             l6_side_effects(cs, eng);
         }
@@ -1781,6 +1795,87 @@ fn l6_check(s: &mut Sink, eng: Eng) {
                     break;
                 }
                 s.nontrivial_hashed(fnv(&bytes) ^ (sq.iter().fold(7u64, |h, i| h * 31 + *i as u64)) ^ ((k as u64) << 40));
+            }
+        }
+    }
+}
+
+/// "The result of an execution depends only on the loaded program, the registered helpers and the
+/// buffers passed in, not on earlier executions" - in particular not on an earlier execution that
+/// *failed*. On one VM object: program F fills its registers and stack slots and then fails in one
+/// of five ways (or succeeds); then program R - reloaded with set_program or already there as a
+/// local function - reads every one of those stack slots without writing them first. What R returns
+/// must be what it returns on a VM that has never run anything (differential oracle; the interpreter's
+/// fresh stack is all zero today, but only "the same as on a fresh VM" is demanded).
+pub fn l6_after_error(s: &mut Sink) {
+    let slots: [i16; 6] = [-8, -16, -24, -256, -504, -512];
+    let reader = |mask: u8| -> Vec<I> {
+        let mut r: Vec<I> = vec![isa::mov64i(0, 0)];
+        for (k, o) in slots.iter().enumerate() {
+            if mask & (1 << k) != 0 {
+                r.push(isa::ldxdw(2, 10, *o));
+                r.push(I::new(0xaf, 0, 2, 0, 0)); // xor64 r0, r2
+                r.push(I::new(0x27, 0, 0, 0, 3)); // mul64 r0, 3
+            }
+        }
+        r.push(isa::EXIT);
+        r
+    };
+    for kind in [VmKind::NoData, VmKind::Raw, VmKind::Mbuff, VmKind::Fixed(0x10, 0x18)] {
+        for fail in 0..6u8 {
+            let mut w: Vec<I> = isa::lddw(6, 0x1122_3344_5566_7788).to_vec();
+            w.push(isa::mov64r(7, 6));
+            for o in slots {
+                w.push(isa::stxdw(10, o, 6));
+            }
+            match fail {
+                0 => {}
+                1 => w.push(isa::ldxdw(0, 10, 8)),                      // load above the stack
+                2 => w.push(isa::call_helper(0x7fff_fff0)),            // unregistered helper
+                3 => w.push(isa::stxdw(10, -520, 6)),                  // store below the stack
+                4 => {
+                    w.extend(isa::lddw(3, 0xdead_0000_0000));
+                    w.push(isa::ldxb(0, 3, 0));                         // wild load
+                }
+                _ => w.push(I::new(0xdb, 10, 6, -4, 0)),               // misaligned atomic add
+            }
+            w.push(isa::mov64i(0, 0));
+            w.push(isa::EXIT);
+            let wb = isa::enc(&w);
+            for mask in [0b111111u8, 0b000001, 0b100000, 0b001010] {
+                let rb = isa::enc(&reader(mask));
+                let pkt = Buf::new(32, 0);
+                let mb = Buf::new(32, 0);
+                let bufs = |k: VmKind| (if matches!(k, VmKind::NoData) { vm::empty_raw() } else { pkt.raw() }, if matches!(k, VmKind::Mbuff) { mb.raw() } else { vm::empty_raw() });
+                let (mem, mbr) = bufs(kind);
+                let fresh = catch(|| {
+                    let mut v = AnyVm::new(kind, Some(&rb))?;
+                    v.exec(Eng::Interp, mem, mbr)
+                });
+                for order in 0..2u8 {
+                    let got = catch(|| {
+                        let mut v = AnyVm::new(kind, Some(&wb))?;
+                        let first = v.exec(Eng::Interp, mem, mbr);
+                        if order == 1 {
+                            // a second failing / succeeding run before the reader
+                            let _ = v.exec(Eng::Interp, mem, mbr);
+                        }
+                        let offs = match kind { VmKind::Fixed(a, b) => (a, b), _ => (0, 0) };
+                        v.set_program(&rb, offs)?;
+                        let r = v.exec(Eng::Interp, mem, mbr);
+                        Ok::<_, String>((first.is_ok(), r))
+                    });
+                    s.count("evaluations", 1);
+                    s.count("states", 3);
+                    s.count("transitions", 3);
+                    s.count("traces_validated_against_impl", 1);
+                    let rp = json!({"kind":"isa-l6","eng":"interp"});
+                    match (&fresh, &got) {
+                        (Ok(f), Ok(Ok((_, g)))) if f == g => {}
+                        (f, g) => s.violation(&format!("interp/after-{}-execution@{}/differs-from-fresh-vm", if fail == 0 { "a-successful" } else { "a-failed" }, vm::kind_name(kind).split(':').next().unwrap()),
+                            format!("a program that reads its stack slots (mask {mask:#08b}) returns {:?} on a fresh VM and {:?} on a VM whose previous execution (failure mode {fail}) wrote those slots", f, g), rp),
+                    }
+                }
             }
         }
     }
@@ -1959,6 +2054,9 @@ pub fn replay_l5(v: &Value) -> Vec<String> {
     run_group(&mut s, eng, "reuse", &v.clone(), move |cs| {
         l6_check(cs, eng);
         l6_nested(cs, eng);
+        if eng == Eng::Interp {
+            l6_after_error(cs);
+        }
         if eng != Eng::Interp {
             l6_side_effects(cs, eng);
         }
